@@ -131,6 +131,8 @@ fn judge(s: &Scenario, prefix: &[u8], out: &RunOutcome, acc: &mut Acc, rep: &mut
     }
     rep.max("max_virtual_ms", ((out.end_time - crate::sim::T0_SEC * crate::sim::SEC) / crate::sim::MS) as u64);
     rep.max("max_choice_points", out.trace.len() as u64);
+    rep.add("zero_length_timer_requests", out.delay_zero_count);
+    rep.add("timer_requests", out.delay_count);
     rep.add("datagrams_sent", out.stats.0);
     rep.add("datagrams_in_fault_window", out.stats.2);
 }
